@@ -2,6 +2,7 @@ package harness
 
 import (
 	"bytes"
+	"encoding/csv"
 	"fmt"
 	"os"
 	"path/filepath"
@@ -255,6 +256,29 @@ func c17Command(rc *RunCtx, t *simrt.Tape) {
 		viaPipe = t.Choose(2) == 1
 		codec = []int{1, 5}[t.Choose(2)]
 	}
+	// the same records as a CSV sequence file (what obicsv writes is an input format too)
+	asCSV := !viaStdin && format == fmFasta && t.Choose(4) == 3
+	hugeCSV := asCSV && t.Choose(3) == 2
+	if hugeCSV {
+		// more than 1 MiB of text: the format guesser only sees the first MiB, what follows is
+		// read by the CSV reader itself
+		pool := fc.Recs
+		fc.Recs = make([]Rec, 0, 15000)
+		for i := 0; i < 15000; i++ {
+			r := pool[i%len(pool)]
+			fc.Recs = append(fc.Recs, Rec{ID: fmt.Sprintf("b%05d", i), Seq: (r.Seq + "acgtacgtacgtacgtacgtacgtacgtacgtacgtacgtacgtacgtacgtacgtacgtacgtacgtacgt")[:70]})
+		}
+	}
+	if asCSV {
+		var cb bytes.Buffer
+		cw := csv.NewWriter(&cb)
+		cw.Write([]string{"id", "sequence"})
+		for _, r := range fc.Recs {
+			cw.Write([]string{r.ID, r.Seq})
+		}
+		cw.Flush()
+		fc.Text = cb.Bytes()
+	}
 	image := compress(codec, fc.Text)
 	kind := t.Choose(2)
 	N := len(image)
@@ -266,6 +290,10 @@ func c17Command(rc *RunCtx, t *simrt.Tape) {
 		k = 1 + t.Choose(minI(24, N-1))
 	default:
 		k = 1 + t.Choose(N-1)
+	}
+	if hugeCSV {
+		// damage in the last tenth of the image: beyond the first MiB of text
+		k = N - 1 - t.Choose(N/10)
 	}
 	bit := t.Choose(8)
 	data := append([]byte(nil), image...)
@@ -296,6 +324,9 @@ func c17Command(rc *RunCtx, t *simrt.Tape) {
 	os.MkdirAll(dir, 0755)
 	defer cleanup(dir)
 	ext := map[int]string{fmFasta: ".fasta", fmFastq: ".fastq"}[format]
+	if asCSV {
+		ext = ".csv"
+	}
 	in := filepath.Join(dir, "in"+ext+codecExt[codec])
 	os.WriteFile(in, data, 0644)
 	out := filepath.Join(dir, "out.fastx")
@@ -323,7 +354,9 @@ func c17Command(rc *RunCtx, t *simrt.Tape) {
 			transport += "-explicit-format"
 		}
 	} else {
-		if t.Choose(3) == 2 {
+		if asCSV {
+			transport = "file-csv"
+		} else if t.Choose(3) == 2 {
 			// explicit input format: no format sniffer in front of the reader
 			args = append(args, map[int]string{fmFasta: "--fasta", fmFastq: "--fastq"}[format])
 			transport = "file-explicit-format"
